@@ -31,21 +31,31 @@ from ref.sem import Sem
 PROPERTY = 'C02'
 LEVEL = 'exploration'
 EXHAUSTIVE = True
-RULE = ('every labelled simple graph with 0..5 vertices (0..4 where the formula has '
-        'n*k variables; thorough: one vertex more where <= 22 variables) crossed with '
-        'every parameter value of the family (all 2^n charge vectors, k in 0..3/4, '
-        'd in 0..3, all ordered graph pairs, all (k,s) in [0..3]^2, every flag '
-        'combination), each instance evaluated on all 2^n assignments; an instance is '
-        'non-trivial when it has at least one variable and one constraint; instances '
-        'are distinct by construction (each tuple enumerated once)')
+RULE = ('every labelled simple graph with 0..5 vertices crossed with every parameter value of '
+        'every family whose formula has <= 20 variables (thorough: <= 22, plus all graphs on 6 '
+        'vertices for the families with <= 19 variables and all ordered isomorphism pairs up to '
+        '5x4 / 5x5-class-representatives): Tseitin x all 2^n charge vectors + default / short / '
+        'long / tuple / integer / non-numeric charge lists; k-colouring k in 0..3(4) x functional; '
+        'even colouring on every graph (ValueError demanded on odd degrees); dominating set '
+        'd in 0..3(4) x alternative; tiling; isomorphism for all ordered pairs of graphs with <= 4 '
+        'vertices x nontrivial; automorphism; subgraph G<=4(5) x H<=3(4) x induced x symbreak '
+        '(symmetric H only); k-clique k in 0..4(5) x symbreak; binary k-clique k in 0..3(4) x '
+        'symbreak on orders 0..5(6); Ramsey witness (k,s) in [0..3]^2 ([0..4]^2, n(k+s) <= 30) x symbreak; '
+        'variants OPB class / networkx input / reversed edge insertion on graphs with <= 3(4) '
+        'vertices.  Each instance is evaluated on all 2^n assignments; it is non-trivial when it '
+        'has at least one variable and one constraint; instances are distinct by construction '
+        '(each tuple enumerated once)')
 ASSUMPTIONS = [
-    'bounded scope: graphs with <= 5 vertices (<= 4 for mapping encodings with n*k '
-    'variables; thorough adds 6 / 5), k <= 4, d <= 3(4), (k,s) in [0..3]^2',
-    'variable meaning is taken from the published names (all_variable_labels)',
-    'the reference predicates and brute-force graph oracles of checks/c02 are the '
-    'documented meaning (they are cross-checked against each other on every case)',
-    'OPB / networkx-input / reversed-edge-insertion variants are run on the graphs '
-    'with <= 3 vertices (<= 4 thorough) only',
+    'bounded scope: graphs with <= 5 vertices (6 in the thorough tier where the formula has '
+    '<= 19 variables), formulas with <= 20 (22) variables, parameters <= 3 (4)',
+    'variable meaning is taken from the published names (all_variable_labels); the Ramsey '
+    'witness variables are undocumented, so only satisfiability is judged there',
+    'the reference predicates and brute-force graph oracles of checks/c02 are the documented '
+    'meaning (they are cross-checked against each other on every case)',
+    'symmetry breaking of SubgraphFormula is documented only for symmetric H (complete or '
+    'empty): other H are not combined with symbreak',
+    'formulas with more than 22 variables (automorphism / isomorphism on 5 vertices, thorough) '
+    'are enumerated by the exhaustive backtracking enumerator of engine.tt instead of a bitmap',
 ]
 VACUITY = {'sat_instances': 2000, 'unsat_instances': 2000,
            'documented_error_raised': 50,
@@ -146,16 +156,26 @@ def tseitin_oracle(n, edges, eff):
 def count_colourings(n, edges, k, functional):
     """number of maps vertex -> colour (functional) / vertex -> non-empty set
     of colours with adjacent vertices receiving different colours / disjoint
-    sets."""
+    sets; vertices are coloured one after the other, a choice is kept only if
+    it is disjoint from the choices of the earlier neighbours."""
     if functional:
         choices = [1 << c for c in range(k)]
     else:
         choices = list(range(1, 1 << k))
-    cnt = 0
-    for col in itertools.product(choices, repeat=n):
-        if all(not (col[u - 1] & col[v - 1]) for u, v in edges):
-            cnt += 1
-    return cnt
+    earlier = [[u for (u, w) in edges if w == v] for v in range(n + 1)]   # u < v
+    col = [0] * (n + 1)
+
+    def rec(v):
+        if v > n:
+            return 1
+        tot = 0
+        for ch in choices:
+            if all(not (col[u] & ch) for u in earlier[v]):
+                col[v] = ch
+                tot += rec(v + 1)
+        col[v] = 0
+        return tot
+    return rec(1)
 
 
 @lru_cache(maxsize=4096)
@@ -562,6 +582,9 @@ def expectation(case):
 
     else:
         raise KeyError(fam)
+    if X.cnt is not None and X.sat is not None and (X.cnt > 0) != bool(X.sat):
+        raise RuntimeError('harness: witness count %r contradicts closed form %r: %r' %
+                           (X.cnt, X.sat, case))
     return X
 
 
@@ -625,6 +648,22 @@ def project_low(bitmap, n, keep):
     return bitmap
 
 
+def clause_view(F):
+    """The clauses of a CNF object, or of an OPB object all of whose
+    constraints are clauses (sum of literals with coefficient 1 >= 1); None if
+    some constraint is not a clause."""
+    if not hasattr(F, '_constraints'):
+        return [list(c) for c in F._clauses]
+    out = []
+    for con in F._constraints:
+        terms, op, val = con[:-2], con[-2], con[-1]
+        if op == '>=' and val == 1 and all(c == 1 for c, _ in terms):
+            out.append([l for _, l in terms])
+        else:
+            return None
+    return out
+
+
 def symptoms(case, R=None):
     """list of (symptom, what) for one instance, judged against the
     documentation only"""
@@ -655,18 +694,39 @@ def symptoms(case, R=None):
                     (n, X.nv)))
         return out
 
+    clauses = clause_view(F) if n > BITMAP_LIMIT else None
+    if n > BITMAP_LIMIT and X.witnesses is None and X.ref is None and X.proj is None \
+            and clauses is not None:
+        # satisfiability only (undocumented variables): complete backtracking
+        # search of the assignment tree, stopped at the first model
+        try:
+            ms, nodes = tt.enumerate_models(n, clauses, limit_models=1)
+        except ValueError as e:
+            out.append(('literal-range', str(e)))
+            return out
+        if R is not None:
+            R.stats['backtracking_nodes'] += nodes
+            R.stats['sat_instances' if ms else 'unsat_instances'] += 1
+            R.nt = n > 0 and len(F) > 0
+        if bool(ms) != bool(X.sat):
+            out.append(('sat', 'formula is %s but such an object %s' %
+                        ('SAT' if ms else 'UNSAT', 'exists' if X.sat else 'does not exist')))
+        return out
+    if n > BITMAP_LIMIT and (clauses is None or X.witnesses is None):
+        # no exhaustive engine for this shape: counted, never reported as covered
+        if R is not None:
+            R.stats['cap_hit'] += 1
+        return out
     if n > BITMAP_LIMIT:
         # exhaustive backtracking enumeration (CNF only), compared with the
         # encodings of the brute-force witnesses
-        if hasattr(F, '_constraints') or X.witnesses is None:
-            raise RuntimeError('case too large for the bitmap engine: %r' % (case,))
         S = None
         atom = {}
         from ref.sem import parse_name
         for i, nm in enumerate(names, start=1):
             atom[parse_name(nm)] = i
         try:
-            ms, nodes = tt.enumerate_models(n, [list(c) for c in F._clauses])
+            ms, nodes = tt.enumerate_models(n, clauses)
         except ValueError as e:
             out.append(('literal-range', str(e)))
             return out
@@ -842,6 +902,11 @@ def family_cases(fam, n, es, pmax, vmax):
         for k in range(0, pmax + 1):
             if 1 + n * k <= vmax:
                 for s in range(0, pmax + 1):
+                    if n * (k + s) > 30:
+                        # scope bound: an encoding with one witness map per
+                        # size would exceed what the exhaustive enumerator
+                        # can refute (pigeonhole-like) in the time budget
+                        continue
                     for sb in (True, False):
                         yield {'fam': fam, 'n': n, 'E': e, 'k': k, 's': s, 'symbreak': sb}
     else:
@@ -890,9 +955,12 @@ def pair_cases(tier):
                 yield {'fam': 'iso', 'n': n1, 'E': L(e1), 'n2': n2, 'E2': L(e2), 'nontrivial': False}
                 yield {'fam': 'iso', 'n': n1, 'E': L(e1), 'n2': n2, 'E2': L(e2), 'nontrivial': True}
     if thorough:
-        # 5-vertex graphs against every graph with <= 4 vertices (both orders)
+        # 5-vertex graphs against every graph with <= 3 vertices (both orders)
+        # and against one representative of every class of 4-vertex graphs
+        small = [(n2, e2) for n2, e2 in graphs if n2 <= 3] + \
+            [(4, e2) for e2 in class_representatives(4)]
         for e1 in scope.simple_graphs(5):
-            for n2, e2 in graphs:
+            for n2, e2 in small:
                 yield {'fam': 'iso', 'n': 5, 'E': L(e1), 'n2': n2, 'E2': L(e2)}
                 if n2 <= 3:
                     yield {'fam': 'iso', 'n': n2, 'E': L(e2), 'n2': 5, 'E2': L(e1), 'nontrivial': True}
